@@ -518,24 +518,25 @@ theorem tgtNext.cont6 {c : Tok} (h : tgtNext c) : contTok 6 c = false := by
   · exact contTok_comma 6
   · exact contTok_in_6
 
-/-- an element of a bare target tuple: an `Expression`-level operand or a starred one -/
+/-- an element of a bare target tuple: an operand (written at `Expression` level, so parenthesised when its own
+    level is lower) or a starred one -/
 inductive TargetElemOK (p : Nat → Bool) : Expr → Prop
-  | plain {e : Expr} (h : GoodP p e) (h16 : unparse p e 1 = unparse p e 6) : TargetElemOK p e
+  | plain {e : Expr} (h : GoodP p e) : TargetElemOK p e
   | star {v : Expr} (h : GoodP p v) : TargetElemOK p (.starred v)
 
 theorem TargetElemOK.head {p : Nat → Bool} {e : Expr} (h : TargetElemOK p e) :
-    ∃ t r, toks (unparse p e 1) = t :: r ∧ t ≠ .kw .in := by
+    ∃ t r, toks (unparse p e 6) = t :: r ∧ t ≠ .kw .in := by
   cases h with
-  | plain h _ =>
-    obtain ⟨t, r, ht, hg⟩ := h.plain.head 1 (by omega)
+  | plain h =>
+    obtain ⟨t, r, ht, hg⟩ := h.plain.head 6 (by omega)
     exact ⟨t, r, ht, by rintro rfl; simp [goodHead] at hg⟩
-  | star h => exact ⟨.op .star, _, toks_starred p _ 1, by simp⟩
+  | star h => exact ⟨.op .star, _, toks_starred p _ 6, by simp⟩
 
 /-- `ExpressionOrStarExpression` -/
 theorem targetElem_parse (p : Nat → Bool) {e : Expr} (h : TargetElemOK p e) {c : Tok} (hc : tgtNext c) (rest : List Tok) :
-    ∃ n, ∀ f, n ≤ f → parseExprOrStar f (toks (unparse p e 1) ++ c :: rest) = some (e, c :: rest) := by
+    ∃ n, ∀ f, n ≤ f → parseExprOrStar f (toks (unparse p e 6) ++ c :: rest) = some (e, c :: rest) := by
   cases h with
-  | plain h h16 =>
+  | plain h =>
     obtain ⟨t, tr, ht, hg⟩ := h.plain.head 6 (by omega)
     have h0 := h.good.rt 6 (c :: rest) (by omega) (by omega) (Stop.cons hc.cont6)
     rw [parseAt_bin (k := 0) (by omega)] at h0
@@ -543,7 +544,6 @@ theorem targetElem_parse (p : Nat → Bool) {e : Expr} (h : TargetElemOK p e) {c
     refine ⟨n + 1, fun fuel hf => ?_⟩
     obtain ⟨f, rfl⟩ : ∃ f, fuel = f + 1 := ⟨fuel - 1, by omega⟩
     have hB := hn f (by omega)
-    rw [h16]
     rw [ht] at hB ⊢
     unfold parseExprOrStar
     split
@@ -561,24 +561,39 @@ theorem targetElem_parse (p : Nat → Bool) {e : Expr} (h : TargetElemOK p e) {c
     obtain ⟨f, rfl⟩ : ∃ f, fuel = f + 1 := ⟨fuel - 1, by omega⟩
     rw [toks_starred, List.cons_append, parseExprOrStar, hn f (by omega)]
 
-/-- what the induction gives for a comprehension target -/
+/-- what the induction gives for a comprehension target (written by `unparse_comp_target`) -/
 def TargetOK (p : Nat → Bool) (t : Expr) : Prop :=
   ∀ rest, ∃ n, ∀ f, n ≤ f →
-    parseTargetList f (toks (unparse p t 0) ++ .kw .in :: rest) = some (t, .kw .in :: rest)
+    parseTargetList f (toks (unparseTarget p t) ++ .kw .in :: rest) = some (t, .kw .in :: rest)
+
+/-- a target that is not a bare tuple is written by `unparse_expr` at `Expression` level -/
+theorem unparseTarget_single (p : Nat → Bool) (t : Expr) (h : ∀ x xs, t ≠ .tuple (x :: xs)) :
+    unparseTarget p t = unparse p t 6 := by
+  cases t with
+  | tuple es =>
+    cases es with
+    | nil => simp [unparseTarget, Prec.EXPR, Prec.BOR]
+    | cons x xs => exact absurd rfl (h x xs)
+  | _ => simp [unparseTarget, Prec.EXPR, Prec.BOR]
+
+/-- a bare tuple target: the elements at `Expression` level, a 1-tuple with its comma -/
+theorem unparseTarget_tuple (p : Nat → Bool) (x : Expr) (xs : List Expr) :
+    unparseTarget p (.tuple (x :: xs)) = unparseSeq p (x :: xs) 6 true ++ (if xs.isEmpty then [op .comma] else []) := by
+  cases xs <;> simp [unparseTarget, Prec.EXPR, Prec.BOR]
 
 /-- a target that is a single element (not a bare tuple) -/
-theorem targetOK_single (p : Nat → Bool) {t : Expr} (h : TargetElemOK p t) (h01 : unparse p t 0 = unparse p t 1) :
+theorem targetOK_single (p : Nat → Bool) {t : Expr} (h : TargetElemOK p t) (hnt : ∀ x xs, t ≠ .tuple (x :: xs)) :
     TargetOK p t := by
   intro rest
   obtain ⟨n, hn⟩ := targetElem_parse p h (c := .kw .in) (Or.inr rfl) rest
   refine ⟨n + 1, fun fuel hf => ?_⟩
   obtain ⟨f, rfl⟩ : ∃ f, fuel = f + 1 := ⟨fuel - 1, by omega⟩
-  rw [h01, parseTargetList, hn f (by omega)]
+  rw [unparseTarget_single p t hnt, parseTargetList, hn f (by omega)]
 
 /-- the elements of a bare target tuple after the first -/
 theorem targetRestRT (p : Nat → Bool) : (xs : List Expr) → (∀ x ∈ xs, TargetElemOK p x) → ∀ (x : Expr), TargetElemOK p x →
     ∀ rest, ∃ n, ∀ f, n ≤ f →
-      parseTargetRest f (toks (unparse p x 1) ++ (toks (unparseSeq p xs 1 false) ++ .kw .in :: rest)) =
+      parseTargetRest f (toks (unparse p x 6) ++ (toks (unparseSeq p xs 6 false) ++ .kw .in :: rest)) =
         some (x :: xs, .kw .in :: rest)
   | [], _, x, hx, rest => by
     obtain ⟨n, hn⟩ := targetElem_parse p hx (c := .kw .in) (Or.inr rfl) rest
@@ -595,7 +610,7 @@ theorem targetRestRT (p : Nat → Bool) : (xs : List Expr) → (∀ x ∈ xs, Ta
   | y :: ys, hys, x, hx, rest => by
     have hy := hys y (List.mem_cons_self ..)
     obtain ⟨n1, hn1⟩ := targetElem_parse p hx (c := .op .comma) (Or.inl rfl)
-      (toks (unparse p y 1) ++ (toks (unparseSeq p ys 1 false) ++ .kw .in :: rest))
+      (toks (unparse p y 6) ++ (toks (unparseSeq p ys 6 false) ++ .kw .in :: rest))
     obtain ⟨n2, hn2⟩ := targetRestRT p ys (fun z hz => hys z (List.mem_cons_of_mem _ hz)) y hy rest
     obtain ⟨t, tr, ht, hin⟩ := hx.head
     refine ⟨n1 + n2 + 1, fun fuel hf => ?_⟩
@@ -618,9 +633,9 @@ theorem targetOK_tuple (p : Nat → Bool) (x : Expr) (xs : List Expr) (hxs : ∀
   cases xs with
   | nil =>
     obtain ⟨n, hn⟩ := targetElem_parse p hx (c := .op .comma) (Or.inl rfl) (.kw .in :: rest)
-    have e1 : toks (unparse p (.tuple [x]) 0) ++ .kw .in :: rest =
-        toks (unparse p x 1) ++ .op .comma :: .kw .in :: rest := by
-      simp [unparse, groupIf, unparseSeq, delim, Prec.TUPLE, Prec.TEST, op]
+    have e1 : toks (unparseTarget p (.tuple [x])) ++ .kw .in :: rest =
+        toks (unparse p x 6) ++ .op .comma :: .kw .in :: rest := by
+      simp [unparseTarget_tuple, unparseSeq, delim, op]
     refine ⟨n + 2, fun fuel hf => ?_⟩
     obtain ⟨f, rfl⟩ : ∃ f, fuel = f + 2 := ⟨fuel - 2, by omega⟩
     rw [e1, parseTargetList, hn (f + 1) (by omega)]
@@ -628,12 +643,12 @@ theorem targetOK_tuple (p : Nat → Bool) (x : Expr) (xs : List Expr) (hxs : ∀
   | cons y ys =>
     have hy := hxs y (List.mem_cons_of_mem _ (List.mem_cons_self ..))
     obtain ⟨n1, hn1⟩ := targetElem_parse p hx (c := .op .comma) (Or.inl rfl)
-      (toks (unparse p y 1) ++ (toks (unparseSeq p ys 1 false) ++ .kw .in :: rest))
+      (toks (unparse p y 6) ++ (toks (unparseSeq p ys 6 false) ++ .kw .in :: rest))
     obtain ⟨n2, hn2⟩ := targetRestRT p ys
       (fun z hz => hxs z (List.mem_cons_of_mem _ (List.mem_cons_of_mem _ hz))) y hy rest
-    have e1 : toks (unparse p (.tuple (x :: y :: ys)) 0) ++ .kw .in :: rest =
-        toks (unparse p x 1) ++ .op .comma :: (toks (unparse p y 1) ++ (toks (unparseSeq p ys 1 false) ++ .kw .in :: rest)) := by
-      simp [unparse, groupIf, unparseSeq, delim, Prec.TUPLE, Prec.TEST, op]
+    have e1 : toks (unparseTarget p (.tuple (x :: y :: ys))) ++ .kw .in :: rest =
+        toks (unparse p x 6) ++ .op .comma :: (toks (unparse p y 6) ++ (toks (unparseSeq p ys 6 false) ++ .kw .in :: rest)) := by
+      simp [unparseTarget_tuple, unparseSeq, delim, op]
     refine ⟨n1 + n2 + 1, fun fuel hf => ?_⟩
     obtain ⟨f, rfl⟩ : ∃ f, fuel = f + 1 := ⟨fuel - 1, by omega⟩
     rw [e1, parseTargetList, hn1 f (by omega)]
@@ -699,8 +714,9 @@ def GoodComps (p : Nat → Bool) : List Comp → Prop
 theorem toks_comp_cons (p : Nat → Bool) (t i : Expr) (ifs : List Expr) (a : Bool) (gs : List Comp) :
     toks (unparseComp p (.mk t i ifs a :: gs)) =
       (if a then [.kw .async, .kw .for] else [.kw .for]) ++
-        (toks (unparse p t 0) ++ .kw .in :: (toks (unparse p i 2) ++ (toks (unparseIfs p ifs) ++ toks (unparseComp p gs)))) := by
-  cases a <;> simp [unparseComp, Prec.TUPLE, Prec.TEST, kw]
+        (toks (unparseTarget p t) ++ .kw .in :: (toks (unparse p i 2) ++ (toks (unparseIfs p ifs) ++ toks (unparseComp p gs)))) := by
+  rw [unparseComp_cons]
+  cases a <;> simp [Prec.TEST, kw]
 
 /-- the clauses that follow end the current one -/
 theorem compEnd_comps (p : Nat → Bool) (gs : List Comp) {o : Op} (ho : isClose o = true) (rest : List Tok) :
@@ -760,7 +776,7 @@ theorem compsRT (p : Nat → Bool) : (gs : List Comp) → gs ≠ [] → GoodComp
     refine ⟨n1 + n2 + n3 + n4 + 1, fun fuel hf => ?_⟩
     obtain ⟨f, rfl⟩ : ∃ f, fuel = f + 1 := ⟨fuel - 1, by omega⟩
     have e1 : toks (unparseComp p (.mk t i ifs a :: gs)) ++ .op o :: rest =
-        (if a then [.kw .async, .kw .for] else [.kw .for]) ++ (toks (unparse p t 0) ++ .kw .in ::
+        (if a then [.kw .async, .kw .for] else [.kw .for]) ++ (toks (unparseTarget p t) ++ .kw .in ::
           (toks (unparse p i 2) ++ (toks (unparseIfs p ifs) ++ (toks (unparseComp p gs) ++ .op o :: rest)))) := by
       rw [toks_comp_cons]; simp
     rw [e1]
